@@ -415,7 +415,7 @@ def rule_contexts(facts):
             return False
         grid = [(lc, lp, ln, pv) for lc in (0, 3, 8) for lp in (0, 2, 4) for ln in (0, 1, 5, 0x1234) for pv in (0, 0x5A, 0xFF)]
         exists("lit_state = ((len & (2^lp - 1)) << lc) + (prev >> (8 - lc))", "lit_state",
-               lambda t: t[0] == "Add" and pat.has_field(t, "lp") and all(
+               lambda t: t[0] in ("Add", "BitOr", "BitXor") and pat.has_field(t, "lp") and pat.has_field(t, "lc") and all(
                    ev(t, lc=lc, lp=lp, len=ln, prev=pv) == ((ln & ((1 << lp) - 1)) << lc) + (pv >> (8 - lc)) for lc, lp, ln, pv in grid))
         exists("matched mode iff state >= 7", "matched-mode",
                lambda t: pat.has_field(t, "state") and pat.cmp_sides(t) and
@@ -469,7 +469,8 @@ def rule_contexts(facts):
                lambda t: pat.cmp_sides(t) and pat.has_call(t, "decode_bit") and not pat.has_call(t, "last_n") and
                [bool(ev(t, sym=sy)) for sy in (1, 0xFF, 0x100, 0x1FF)] in ([True, True, False, False], [False, False, True, True]))
         exists("byte = symbol - 0x100", "result",
-               lambda t: t[0] in ("Sub", "cast") and pat.has_const(t, 0x100) and all(ev(t, sym=sy) == (sy - 0x100) & 0xFF for sy in (0x100, 0x155, 0x1FF)))
+               lambda t: t[0] in ("Sub", "cast", "BitAnd") and pat.has_call(t, "decode_bit") and
+               all(ev(t, sym=sy) & 0xFF == (sy - 0x100) & 0xFF and ev(t, sym=sy) in (sy - 0x100, sy & 0xFF) for sy in (0x100, 0x155, 0x1FF)))
         tm = Terms(lit)
         ln_ = [blk for blk in lit.calls() if blk.term.callee is not None and blk.term.callee.method == "last_n"]
         r.sites += 1
@@ -853,12 +854,12 @@ def rule_shapes(facts):
     ldb = pat.body_of(facts, "LenDecoder::decode")
     if ldb is not None:
         tm = Terms(ldb)
-        adds = sorted({t[2][1] for blk in ldb.blocks for s in blk.stmts if s.k == "assign" and s.rv.k == "binop"
-                       for t in [tm.of_rvalue(s.rv, 0)] if t[0] == "Add" and t[2][0] == "const"})
-        if adds == [8, 16]:
+        from rules import rcterms as _rc
+        badl = _rc.len_decoder_table(ldb)
+        if badl is None:
             r.ok("table", {"length classes": "low / 8 + mid / 16 + high"})
         else:
-            r.bad("len|bases", "length class bases are %s (format: 8, 16)" % adds, pat.where(ldb))
+            r.bad("len|bases", badl, pat.where(ldb), "unverifiable" if badl.startswith("cannot") else "violated")
     return r
 
 
